@@ -140,7 +140,12 @@ func (c *Ctx) BuildQuery(o *Obligation, produceModels bool) (string, int) {
 		b.WriteString("(set-option :produce-models true)\n")
 	}
 	b.WriteString("(set-logic ALL)\n")
-	b.WriteString(prelude)
+	if o.ExpectFail {
+		// reachability probes need a definite "sat": no quantified axiom in the prelude
+		b.WriteString(strings.Replace(prelude, "(declare-fun sidx (Slice Int) Int)\n(assert (forall ((s Slice) (i Int)) (! (= (sidx s i) (+ (s.off s) i)) :pattern ((sidx s i)))))", "(define-fun sidx ((s Slice) (i Int)) Int (+ (s.off s) i))", 1))
+	} else {
+		b.WriteString(prelude)
+	}
 	for _, d := range c.sortDecls {
 		b.WriteString(d)
 		b.WriteByte('\n')
